@@ -39,6 +39,10 @@ enum Dev {
     Id(usize, usize),
     /// aggregators `a` and `b` are handed each other's share
     Swap(usize, usize),
+    /// aggregator `a` uses a different context string of the SAME length (last byte changed)
+    CtxSameLen(usize),
+    /// aggregator `a` uses a context string of the same length that differs in the first byte only
+    CtxFirstByte(usize),
     /// aggregator `a` uses a different context string only when combining verifier shares and in verify_next
     CtxLate(usize),
 }
@@ -90,6 +94,12 @@ where
             }
         }
         singles.push(Dev::CtxLate(a));
+        if !ctx.is_empty() {
+            singles.push(Dev::CtxSameLen(a));
+            if ctx.len() > 1 {
+                singles.push(Dev::CtxFirstByte(a));
+            }
+        }
         for b in a + 1..n {
             singles.push(Dev::Swap(a, b));
         }
@@ -129,6 +139,18 @@ where
             for d in combo {
                 match d {
                     Dev::Ctx(a) => envs[*a].ctx = alt_ctx.clone(),
+                    Dev::CtxSameLen(a) => {
+                        let mut c = ctx.to_vec();
+                        if let Some(l) = c.last_mut() {
+                            *l = l.wrapping_add(1);
+                        }
+                        envs[*a].ctx = c
+                    }
+                    Dev::CtxFirstByte(a) => {
+                        let mut c = ctx.to_vec();
+                        c[0] ^= 0x80;
+                        envs[*a].ctx = c
+                    }
                     Dev::CtxAll => envs.iter_mut().for_each(|e| {
                         if e.ctx == ctx {
                             e.ctx = alt_ctx2.clone()
@@ -199,6 +221,8 @@ where
             let label = format!("{:?}", combo);
             let key_label: String = combo.iter().map(|d| match d {
                 Dev::Ctx(_) => "ctx",
+                Dev::CtxSameLen(_) => "ctx_same_length",
+                Dev::CtxFirstByte(_) => "ctx_first_byte",
                 Dev::CtxAll => "ctx_all",
                 Dev::Nonce(_) => "nonce",
                 Dev::NonceAll => "nonce_all",
@@ -255,10 +279,20 @@ where
     T::Field: KitField,
     <T::Field as prio::field::FieldElementWithInteger>::Integer: IntConv,
 {
+    prio3_case_x::<T, XofTurboShake128>(run, case, aggs, proofs, tapes, pairs, "")
+}
+
+fn prio3_case_x<T, X>(run: &Run, case: &Case<T>, aggs: &[u8], proofs: u8, tapes: &[(String, Tape)], pairs: bool, sfx: &str)
+where
+    T: Type + Clone + Send + Sync + 'static,
+    X: prio::vdaf::xof::Xof<32>,
+    T::Field: KitField,
+    <T::Field as prio::field::FieldElementWithInteger>::Integer: IntConv,
+{
     let jr = case.typ.joint_rand_len() > 0;
     for &na in aggs {
-        let vdaf: P3<T> = Prio3::new(na, proofs, case.alg, case.typ.clone()).unwrap();
-        let alt: P3<T> = Prio3::new(na, proofs, case.alg ^ 0x100, case.typ.clone()).unwrap();
+        let vdaf: Prio3<T, X, 32> = Prio3::new(na, proofs, case.alg, case.typ.clone()).unwrap();
+        let alt: Prio3<T, X, 32> = Prio3::new(na, proofs, case.alg ^ 0x100, case.typ.clone()).unwrap();
         for (ti, (_tn, tape)) in tapes.iter().enumerate() {
             let m = &case.meas[(ti * 3 + 1) % case.meas.len()];
             let ctx: Vec<u8> = tape.bytes(1, [0usize, 7, 40][ti % 3]);
@@ -266,7 +300,7 @@ where
             let vk: [u8; 32] = tape.array(3);
             let random = tape.bytes(4, if jr { 2 * na as usize * 32 } else { na as usize * 32 });
             let (ps, shares) = vdaf.shard_with_random(&ctx, m, &nonce, &random).unwrap();
-            let s = Setup { name: format!("{}/aggs={na}", case.name), vdaf: &vdaf, vdaf_alt_alg: Some(&alt), n: na as usize, nonce_bound: jr, late_ctx_bound: jr };
+            let s = Setup { name: format!("{}{sfx}/aggs={na}", case.name), vdaf: &vdaf, vdaf_alt_alg: Some(&alt), n: na as usize, nonce_bound: jr, late_ctx_bound: jr };
             let mut honest = None;
             matrix(run, &s, &(), &ps, &shares, &ctx, &nonce, &vk, pairs, &mut honest);
         }
@@ -300,13 +334,20 @@ fn poplar_case(run: &Run, bits: usize, tapes: &[(String, Tape)], pairs: bool) {
             let s = Setup { name: format!("Poplar1(bits={bits})/level={level}"), vdaf: &vdaf, vdaf_alt_alg: None, n: 2, nonce_bound: true, late_ctx_bound: false };
             let mut honest = None;
             matrix(run, &s, &ap, &ps, &shares, &ctx, &nonce, &vk, pairs, &mut honest);
+            // a single candidate prefix (on the path; off the path): nothing to combine in the sketch
+            for (which, cand) in [("on_path", input[..=level].to_vec()), ("off_path", { let mut c = input[..=level].to_vec(); c[level] = !c[level]; c })] {
+                let ap = Poplar1AggregationParam::try_from_prefixes(vec![IdpfInput::from_bools(&cand)]).unwrap();
+                let s = Setup { name: format!("Poplar1(bits={bits})/level={level}/single_{which}"), vdaf: &vdaf, vdaf_alt_alg: None, n: 2, nonce_bound: true, late_ctx_bound: false };
+                let mut honest = None;
+                matrix(run, &s, &ap, &ps, &shares, &ctx, &nonce, &vk, false, &mut honest);
+            }
         }
     }
 }
 
 fn main() {
     let run = Run::from_args("C18", Level::FaultEnumeration);
-    run.rule("mismatch matrix: per-aggregator ctx / nonce / verify key / algorithm id / identifier / handed share, single and (thorough: all, quick: for small instances) pairwise departures from the honest configuration, in wire mode and direct-object mode, for every Prio3 type (2..4 aggregators) and Poplar1 inner and leaf levels; plus the stated exception (nonce or key replaced consistently everywhere). distinct = distinct (instance, mismatch combination, mode); non-trivial = the report reached verify_init at every aggregator or was rejected by a decoder under the aggregator's own identifier");
+    run.rule("mismatch matrix: per-aggregator ctx / nonce / verify key / algorithm id / identifier / handed share, single and (thorough: all, quick: for small instances) pairwise departures from the honest configuration, in wire mode and direct-object mode, for every Prio3 type (2..4 aggregators; TurboSHAKE128 and, for four instances, the HMAC-SHA256+AES128 XOF; context departures of a different length, of the same length in the last byte and in the first byte) and Poplar1 inner and leaf levels with the on-path/sibling pair and with a single on-path or off-path candidate; plus the stated exception (nonce or key replaced consistently everywhere). distinct = distinct (instance, mismatch combination, mode); non-trivial = the report reached verify_init at every aggregator or was rejected by a decoder under the aggregator's own identifier");
     run.assume("a mismatch going undetected by chance (hash/proof collision) has probability ~2^-57 per case and is reported as a violation");
     run.assume("single-aggregator instances are excluded (nothing to bind against)");
     let q = run.quick();
@@ -325,6 +366,14 @@ fn main() {
     // exactly one joint-randomness element (whole encoding in one chunk)
     prio3_case(&run, &histogram_case::<Field128>(4, 4), &aggs, 1, &tapes, pairs);
     prio3_case(&run, &sumvec_case::<Field128>(1, 4, 4), &[2], 2, &tapes, pairs);
+    // the other XOF shipped with the library (HMAC-SHA256 + AES128)
+    {
+        use prio::vdaf::xof::XofHmacSha256Aes128;
+        prio3_case_x::<_, XofHmacSha256Aes128>(&run, &count_case::<Field64>(), &aggs, 1, &tapes, pairs, "#hmac");
+        prio3_case_x::<_, XofHmacSha256Aes128>(&run, &sum_case::<Field64>(255), &[2], 2, &tapes, pairs, "#hmac");
+        prio3_case_x::<_, XofHmacSha256Aes128>(&run, &histogram_case::<Field128>(5, 2), &aggs, 2, &tapes, pairs, "#hmac");
+        prio3_case_x::<_, XofHmacSha256Aes128>(&run, &sumvec_case::<Field64>(3, 3, 2), &[2], 1, &tapes, pairs, "#hmac");
+    }
     for bits in if q { vec![1usize, 2, 4, 9] } else { vec![1, 2, 3, 4, 9, 33, 65] } {
         poplar_case(&run, bits, &tapes, pairs);
     }
